@@ -554,7 +554,18 @@ def execStmt (W : World Ω) : Nat → Stmt → St Ω → Option (Ctl × St Ω)
          | _ => none)
       | _ => none
     | .goS _ => none
-    | .send _ _ => none
+    | .send ch v =>
+      -- `ch <- v`: a channel operation of the world (`chan:send`); the interpreter follows ONE goroutine, so what other
+      -- goroutines do with the channel is the world's business
+      match evalExpr W fuel ch st with
+      | some ([c], st1) =>
+        (match evalExpr W fuel v st1 with
+         | some ([x], st2) =>
+           (match W.call "chan:send" [c, x] st2.heap st2.w with
+            | some (_, h, w) => some (.next, { st2 with heap := h, w := w })
+            | none => none)
+         | _ => none)
+      | _ => none
     | .unsupported _ => none
 
 def execBlock (W : World Ω) : Nat → Block → St Ω → Option (Ctl × St Ω)
